@@ -257,6 +257,16 @@ def p_neo_euler(ctx, c, outs):
         ho2 = np.asarray(R.to_homochoric().data if hasattr(R.to_homochoric(), "data") else R.to_homochoric(), float).reshape(-1, 3)
         pos = refq[:, 0] >= 0                      # (for a negative scalar part to_homochoric has an open finding)
         r.elems("homochoric", pos & ~(np.abs(ho - ho2).max(axis=1) <= 1e-7), lambda i: f"Homochoric.from_rotation = {ho[i].tolist()} but to_homochoric = {ho2[i].tolist()} for q = {refq[i].tolist()}")
+        # ... and, for EVERY rotation (either sign of the scalar part), the closed form: axis * (3/4 (w - sin w))^(1/3) with
+        # the rotation angle w in [0, pi] about the axis of the representative with non-negative scalar part
+        sgn = np.where(refq[:, 0] < 0, -1.0, 1.0)
+        vn = np.linalg.norm(refq[:, 1:], axis=1)
+        want_len = (0.75 * (ang - np.sin(ang))) ** (1.0 / 3.0)
+        want_ho = np.where(vn[:, None] > 0, sgn[:, None] * refq[:, 1:] / np.where(vn > 0, vn, 1.0)[:, None], 0.0) * want_len[:, None]
+        two_fold = ang > math.pi - 1e-7               # the axis of a half turn is defined up to sign
+        err = np.where(two_fold, np.minimum(np.abs(ho - want_ho).max(axis=1), np.abs(ho + want_ho).max(axis=1)),
+                       np.abs(ho - want_ho).max(axis=1))
+        r.elems("homochoric_closed_form", ~(err <= 1e-7), lambda i: f"Homochoric.from_rotation = {ho[i].tolist()} for q = {refq[i].tolist()}, expected {want_ho[i].tolist()} (length {np.linalg.norm(ho[i])!r}, bound (3 pi/4)^(1/3) = {(0.75 * math.pi) ** (1 / 3)!r})")
         # constructor from axes and angles
         axes = refq[:, 1:] + np.array([1e-3, 2e-3, 3e-3])
         for deg in (False, True):
